@@ -674,6 +674,8 @@ def c16(run):
               ("Gen_Total", cfg(constants=dict(Scope="scale", MaxLen=1), invariants=("Emit",)), "C16:limits", None)]
     if not run.quick:
         stages.append(("Gen_Gram", gen_cfg(dict(Scope="all", MaxLen=3)), "C16:tokens", None))
+    # reader scripts through ParseFile (error, program, diagnostics): also compared between the processes with 1, 4 and 16 processors
+    stages.append(("Gen_Pipe", "SPECIFICATION Spec\nCONSTANTS MaxReads = 2  TokBuf = 2  EmptyIsEOF = FALSE\nINVARIANT Emit\nCHECK_DEADLOCK FALSE\n", "C16:file-det", None))
     for mod, c, stage, _ in stages:
         # one generation, kept in a file, replayed by several processes
         path = os.path.join(run.scratch, stage.replace(":", "_") + ".cases")
